@@ -1,5 +1,6 @@
 import Toodee.Spec.IterAbs
 import Toodee.Properties.C08
+import Toodee.Proofs.FlatLemmas
 /-
   C10 — Cell iterators visit every cell once in row-major order.
 
@@ -15,45 +16,53 @@ variable {α : Type}
 theorem C10_next (s : Flat) (k n : Nat) (h : s.WF k n) (fuel : Nat) (hf : 2 ≤ fuel) :
     ∃ s' k', s.next fuel = .ok ((Seq.next (s.abs k)).1, s') ∧ s'.WF k' n ∧
       s'.abs k' = (Seq.next (s.abs k)).2 := by
-  sorry
+  obtain ⟨f, rfl⟩ : ∃ f, fuel = f + 2 := ⟨fuel - 2, by omega⟩
+  exact FlatL.next_spec h f
 
 theorem C10_next_back (m : Mode) (s : Flat) (k n : Nat) (h : s.WF k n) (fuel : Nat) (hf : 2 ≤ fuel) :
     ∃ s' k', s.nextBack m fuel = .ok ((Seq.nextBack (s.abs k)).1, s') ∧ s'.WF k' n ∧
       s'.abs k' = (Seq.nextBack (s.abs k)).2 := by
-  sorry
+  obtain ⟨f, rfl⟩ : ∃ f, fuel = f + 2 := ⟨fuel - 2, by omega⟩
+  exact FlatL.nextBack_spec m h f
 
 theorem C10_nth (m : Mode) (s : Flat) (k n : Nat) (h : s.WF k n) (j : Nat) (hj : j < WORD) :
     ∃ s' k', s.nth m j = .ok ((Seq.nth (s.abs k) j).1, s') ∧ s'.WF k' n ∧
       s'.abs k' = (Seq.nth (s.abs k) j).2 := by
-  sorry
+  have _ := hj
+  exact FlatL.nth_spec m h j
 
 theorem C10_nth_back (m : Mode) (s : Flat) (k n : Nat) (h : s.WF k n) (j : Nat) (hj : j < WORD) :
     ∃ s' k', s.nthBack m j = .ok ((Seq.nthBack (s.abs k) j).1, s') ∧ s'.WF k' n ∧
       s'.abs k' = (Seq.nthBack (s.abs k) j).2 := by
-  sorry
+  have _ := hj
+  exact FlatL.nthBack_spec m h j
 
 /-- `len()` / `size_hint()` (and `count()`, which folds) -/
 theorem C10_len (m : Mode) (s : Flat) (k n : Nat) (h : s.WF k n) : s.sizeHint m = .ok (s.abs k).length := by
-  sorry
+  exact FlatL.sizeHint_spec m h
 
 theorem C10_last (m : Mode) (s : Flat) (k n : Nat) (h : s.WF k n) (fuel : Nat) (hf : 2 ≤ fuel) :
     s.last m fuel = .ok (Seq.last (s.abs k)) := by
-  sorry
+  obtain ⟨f, rfl⟩ : ∃ f, fuel = f + 2 := ⟨fuel - 2, by omega⟩
+  obtain ⟨s', k', h1, _, _⟩ := FlatL.nextBack_spec m h f
+  simp [Flat.last, h1, Seq.last]
 
 theorem C10_fold (s : Flat) (k n : Nat) (h : s.WF k n) (fuel : Nat) (hf : k < fuel) :
     s.collect fuel = .ok (s.abs k) := by
-  sorry
+  exact FlatL.collect_spec h fuel hf
 
 theorem C10_rfold (m : Mode) (s : Flat) (k n : Nat) (h : s.WF k n) (fuel : Nat) (hf : k < fuel) :
     s.collectBack m fuel = .ok (s.abs k).reverse := by
-  sorry
+  exact FlatL.collectBack_spec m h fuel hf
 
 /-- any interleaving of `next`, `next_back`, `nth`, `nth_back`, `len` -/
 theorem C10_word (m : Mode) (s : Flat) (k n : Nat) (h : s.WF k n) (fuel : Nat) (hf : 2 ≤ fuel)
     (w : List Seq.Op) (hw : ∀ o ∈ w, o.small) :
     ∃ s' k', s.run m fuel w = .ok ((Seq.run (s.abs k) w).1, s') ∧ s'.WF k' n ∧
       s'.abs k' = (Seq.run (s.abs k) w).2 := by
-  sorry
+  have _ := hw
+  obtain ⟨f, rfl⟩ : ∃ f, fuel = f + 2 := ⟨fuel - 2, by omega⟩
+  exact FlatL.run_spec m h f w
 
 /-- `cells()` / `cells_mut()` / `IntoIterator` of an owned array: all positions `0 .. C*R` in order -/
 theorem C10_cells_owned (t : TD α) (h : t.Inv) :
@@ -61,7 +70,16 @@ theorem C10_cells_owned (t : TD α) (h : t.Inv) :
     (Flat.new t.rows).abs t.numRows = List.range t.data.length ∧
     (Flat.new t.rows).abs t.numRows =
       ((List.range t.numRows).map fun r => (List.range t.numCols).map fun c => t.pos c r).flatten := by
-  sorry
+  obtain ⟨hwf, habs⟩ := C08_rows_owned t h
+  have e1 : (Flat.new t.rows).abs t.numRows =
+      ((List.range t.numRows).map fun r => (List.range t.numCols).map fun c => t.pos c r).flatten := by
+    rw [FlatL.new_abs, habs]
+    simp only [TD.pos, Nat.add_zero]
+    exact FlatL.cells_map_range _ _ _
+  refine ⟨FlatL.new_WF hwf, ?_, e1⟩
+  rw [e1, h.len, Nat.mul_comm]
+  simp only [TD.pos]
+  exact FlatL.flatten_range_mul _ _
 
 /-- `cells()` / `cells_mut()` of a view: the positions of all its cells, row-major, each exactly once -/
 theorem C10_cells_view (m : Mode) (v : VW) (n : Nat) (h : v.Inv n) :
@@ -69,6 +87,19 @@ theorem C10_cells_view (m : Mode) (v : VW) (n : Nat) (h : v.Inv n) :
       (Flat.new it).abs v.numRows =
         ((List.range v.numRows).map fun r => (List.range v.numCols).map fun c => v.pos c r).flatten ∧
       ((Flat.new it).abs v.numRows).Nodup ∧ ((Flat.new it).abs v.numRows).length = v.numCols * v.numRows := by
-  sorry
+  obtain ⟨it, hit, hwf, habs⟩ := C08_rows_view m v n h
+  have e1 : (Flat.new it).abs v.numRows =
+      ((List.range v.numRows).map fun r => (List.range v.numCols).map fun c => v.pos c r).flatten := by
+    rw [FlatL.new_abs, habs]
+    simp only [VW.pos, Nat.add_zero]
+    exact FlatL.cells_map_range _ _ _
+  refine ⟨it, hit, FlatL.new_WF hwf, e1, ?_, ?_⟩
+  · rw [e1]
+    simp only [VW.pos]
+    exact List.Pairwise.imp (fun hab => Nat.ne_of_lt hab) (FlatL.cells_sorted _ _ _ _ h.stride)
+  · rw [FlatL.new_abs, habs, FlatL.cellsOf_length _ v.numCols, List.length_map, List.length_range, Nat.mul_comm]
+    intro w hw
+    obtain ⟨r, _, rfl⟩ := List.mem_map.1 hw
+    rfl
 
 end Toodee
